@@ -39,7 +39,7 @@ def parseBool? (s : String) : Option Bool :=
 
 /-! ### 3-vectors and 3x3 matrices (rows) over any scalar type -/
 
-structure V3 (K : Type) where
+@[ext] structure V3 (K : Type) where
   x : K
   y : K
   z : K
@@ -69,7 +69,7 @@ instance [Neg K] : Neg (V3 K) := ⟨neg⟩
 end V3
 
 /-- 3x3 matrix stored as three **rows** (atomman: `vects[i]` is cell vector `i`). -/
-structure M3 (K : Type) where
+@[ext] structure M3 (K : Type) where
   r0 : V3 K
   r1 : V3 K
   r2 : V3 K
